@@ -37,7 +37,11 @@ func (v *Vue) evalVText(ctx VueContext, n *htmlnode.Node) error {
 	}
 
 	// Evaluate v-text expression to its string value and escape for HTML
-	textStr := fmt.Sprint(val)
+	textStr := ""
+	if val != nil {
+		// (nothing is nothing, as in {{ }} and v-html: fmt would print "<nil>")
+		textStr = fmt.Sprint(val)
+	}
 	escapedStr := html.EscapeString(textStr)
 	n.Attr = append(n.Attr, htmlnode.Attribute{Key: "data-v-text-content", Val: escapedStr})
 
